@@ -315,6 +315,29 @@ func init() {
 			gf := f.DecodeString(all)
 			r.Check(gf == norm.NFC.String(want.String()), "precedence", fmt.Sprintf("with a ToUnicode map the font decodes to %q, the map says %q", gf, want.String()), cv)
 		}
+		// (c2) a ToUnicode map also decides strings that happen to begin like a byte-order mark
+		for it := 0; it < 40; it++ {
+			ta, tb, tc := c07Text(rng), c07Text(rng), c07Text(rng)
+			var prog string
+			var data []byte
+			if rng.Bool() {
+				prog = fmt.Sprintf("1 begincodespacerange <0000> <FFFF> endcodespacerange 3 beginbfchar <FEFF> <%s> <FFFE> <%s> <0041> <%s> endbfchar", c07TextHex(ta), c07TextHex(tb), c07TextHex(tc))
+				data = [][]byte{{0xFE, 0xFF, 0x00, 0x41, 0xFF, 0xFE}, {0xFF, 0xFE, 0x00, 0x41, 0xFE, 0xFF}}[rng.Intn(2)]
+			} else {
+				prog = fmt.Sprintf("1 begincodespacerange <00> <FF> endcodespacerange 3 beginbfchar <FE> <%s> <FF> <%s> <41> <%s> endbfchar", c07TextHex(ta), c07TextHex(tb), c07TextHex(tc))
+				data = [][]byte{{0xFE, 0xFF, 0x41}, {0xFF, 0xFE, 0x41, 0xFE}}[rng.Intn(2)]
+			}
+			cm, err := font.ParseToUnicodeCMap(&core.Stream{Dict: core.Dict{}, Data: []byte(prog)})
+			if err != nil || cm == nil {
+				r.Check(false, "cmap-parse", "a ToUnicode program with codes FE / FF does not parse", Bs(prog))
+				continue
+			}
+			f := font.NewFont("F1", "Custom", "Type0")
+			f.ToUnicodeCMap = cm
+			want := norm.NFC.String(cm.LookupString(data))
+			got := f.DecodeString(data)
+			r.Check(got == want && strings.Contains(want, norm.NFC.String(tc)), "precedence-bom", fmt.Sprintf("a string beginning with bytes % X, font with a ToUnicode map: decoded to %q, the map gives %q", data[:2], got, want), L(I(2), Bs(prog), VB(data)))
+		}
 		// (d) every path returns valid UTF-8 in normal form C
 		for it := 0; it < n*2; it++ {
 			data := rng.Bytes(rng.Intn(12))
